@@ -192,6 +192,9 @@ def build_layer(d, roots):
     if t == 'checkids':
         return CheckIds()
     if t == 'groupby':
+        if d.get('by_callable'):
+            import pickpool
+            return GroupBy(pickpool.by_grp)
         return GroupBy(d['by'])
     if t == 'chain':
         ls = [build_layer(x, roots) for x in d['layers']]
